@@ -78,8 +78,15 @@ def sweep_spec(draw, wrapped: str, rich: bool = False):
     nvars = draw(st.sampled_from([1, 1, 2, 2, 3] if rich else [1, 1, 2]))
     names = draw(st.permutations(["t", "s", "r"]))[:nvars]
     vars_: Dict[str, Any] = {}
+    used_ctx = set()
     for n in names:
-        vars_[n] = draw(var_spec(rich=rich))
+        v = draw(var_spec(rich=rich))
+        if v["kind"] == "ctx":
+            if v["key"] in used_ctx:  # two variables reading one key: construction is rejected (duplicate parameter)
+                v = {"kind": "values", "values": [1.0, 2.0]}
+            else:
+                used_ctx.add(v["key"])
+        vars_[n] = v
     pnames = [n for n, _ in base["params"] if n not in ("marker", "kind", "opts")]
     params: Dict[str, str] = {}
     if pnames:
